@@ -216,6 +216,17 @@ def py_rhs(r):
     if 'scalar' in r: return r['scalar']
     return np.array(r['flat'], dtype=_DT_RHS[r['dtype']]).reshape(r['shape'])
 
+@op('get_ndmask')
+class _:
+    # a boolean mask of the full shape of an n-d array: the selected cells along ONE axis whose labels are coordinate tuples
+    def run(a, ins, mask, how):
+        m = np.array(mask, dtype=bool).reshape(a.shape)
+        if how == 'getitem_da': return a[da().DimArray(m, axes=[ax.copy() for ax in a.axes])]
+        if how == 'take': return a.take(m)
+        if how == 'compress': return a.compress(m)
+        return a[m]
+    def coq(mask, how): raise Unsupported('n-d boolean indexing is checked by the oracle only')
+
 @op('put')
 class _:
     def run(a, ins, spelling, form, tol, rhs, cast, inplace, by):
